@@ -264,24 +264,33 @@ Definition check_whole (fmt : Z) (nref total : N) (obs : list sx) : verdict :=
   | _ => VBad
   end.
 
+Definition check_hostile (fmt cipher : Z) (data : bytes) (chunks : sx) (expect : Z)
+           (dec_t unzip_t : sx) (rs : list sx) : verdict :=
+  match sx_Ns chunks, sx_table dec_t, sx_otable unzip_t with
+  | Some sizes, Some td, Some tu =>
+      (* the bounds / no-panic sentences first, then: a frame whose body does not match its
+         flags must be reported as an error *)
+      vjoin
+        (check_singles (fun_of_table td) (fun_of_otable tu) fmt (negb (Z.eqb cipher 0))
+                       (lenN data) (chunk sizes data) rs)
+        (check_that (Z.eqb expect 0 ||
+                     match rs with
+                     | SList (SInt _ :: SInt kind :: _) :: _ => negb (Z.eqb kind 0)
+                     | _ => false
+                     end) (VPropFail 7))
+  | _, _, _ => VBad
+  end.
+
 Definition check (c : sx) : verdict :=
   match c with
   | SList [SList [SInt 10%Z; SInt fmt; SInt cipher; SInt _; SBytes data; chunks; SInt _; SInt expect];
+           SList [dec_t; unzip_t; SList rs; SInt after]] =>
+      (* a good frame on a fresh stream must still decode after the hostile one *)
+      vjoin (check_hostile fmt cipher data chunks expect dec_t unzip_t rs)
+            (check_that (Z.eqb after 1) (VPropFail 5))
+  | SList [SList [SInt 10%Z; SInt fmt; SInt cipher; SInt _; SBytes data; chunks; SInt _; SInt expect];
            SList [dec_t; unzip_t; SList rs]] =>
-      match sx_Ns chunks, sx_table dec_t, sx_otable unzip_t with
-      | Some sizes, Some td, Some tu =>
-          (* the bounds / no-panic sentences first, then: a frame whose body does not match its
-             flags must be reported as an error *)
-          vjoin
-            (check_singles (fun_of_table td) (fun_of_otable tu) fmt (negb (Z.eqb cipher 0))
-                           (lenN data) (chunk sizes data) rs)
-            (check_that (Z.eqb expect 0 ||
-                         match rs with
-                         | SList (SInt _ :: SInt kind :: _) :: _ => negb (Z.eqb kind 0)
-                         | _ => false
-                         end) (VPropFail 7))
-      | _, _, _ => VBad
-      end
+      check_hostile fmt cipher data chunks expect dec_t unzip_t rs
   | SList [SList [SInt 11%Z; SInt fmt; SInt cipher; SInt _; SBytes frame; SInt mode; SInt lo; SInt hi];
            SList obs] =>
       check_damaged fmt cipher frame mode (Z.to_N lo) (Z.to_N hi) obs
